@@ -70,6 +70,41 @@ class ParserL(_BaseParser):
             return N("sizeof", x.pos, targ=targ)
         return _BaseParser.primary(self, no_struct)
 
+    def stmt(self):
+        x = self.peek()
+        # `use path::*;` inside a function body (name resolution only) and `#[attr]` on a statement are skipped
+        if x.kind == "id" and x.text == "use":
+            while not self.at(";"):
+                if self.peek().kind == "eof":
+                    raise Unsupported("`use` without `;`", x.pos)
+                self.next()
+            self.next()
+            return self.stmt()
+        if x.kind == "op" and x.text == "#" and self.at("[", 1):
+            depth = 0
+            self.next()
+            while True:
+                t = self.next()
+                if t.kind == "eof":
+                    raise Unsupported("unbalanced attribute", x.pos)
+                if t.text == "[":
+                    depth += 1
+                elif t.text == "]":
+                    depth -= 1
+                    if depth == 0:
+                        break
+            return self.stmt()
+        # `let x;` (deferred initialisation; Rust guarantees a definite assignment before every use)
+        if x.kind == "id" and x.text == "let" and self.peek(1).kind == "id" and self.at(";", 2):
+            self.next()
+            nm = self.next()
+            self.next()
+            return N("let", x.pos, pat=N("pid", nm.pos, name=nm.text, mut=True), ty=None, init=None)
+        return _BaseParser.stmt(self)
+
+    def body(self):
+        return desugar_block(_BaseParser.body(self), [0])
+
     def args(self):
         # `|&(_, dist)| dist` as the only argument (the key closure of `min_by_key`): second component of the pair
         if self.at("(") and self.at("|", 1) and self.at("&", 2) and self.at("(", 3) and self.at("_", 4) and self.at(",", 5) \
@@ -100,6 +135,95 @@ class ParserL(_BaseParser):
         return _BaseParser.args(self)
 
 
+def _ends_in_break(b):
+    return b is not None and b.kind == "block" and b.tail is None and b.stmts and b.stmts[-1].kind == "break"
+
+
+def _has_break(n):
+    return pm.contains_kind(n, ("break",), stop=pm.LOOP_KINDS)
+
+
+def _replace_breaks(e, flag):
+    """`e`: an `if` chain; a branch that ends in `break` ends in `flag = true` instead.  Any other position of a `break` is refused."""
+    for attr in ("then", "els"):
+        b = getattr(e, attr)
+        if b is None:
+            continue
+        if b.kind == "block" and not b.stmts and b.tail is not None and b.tail.kind == "if":
+            _replace_breaks(b.tail, flag)
+            continue
+        if _ends_in_break(b):
+            brk = b.stmts[-1]
+            b.stmts[-1] = N("assign", brk.pos, lhs=N("var", brk.pos, name=flag), op=None, rhs=N("blit", brk.pos, v=True))
+        if _has_break(b):
+            raise Unsupported("`break` that is not the last statement of a branch of the never-looping `loop`", b.pos)
+
+
+def desugar_block(b, counter):
+    """syntactic desugarings (semantics preserving) applied to every block after parsing:
+    * the goto emulation `loop { S1; ..; Sn; break; }` (clippy: never_loop) where other `break`s only end branches of `if` chains:
+      `let mut brkK = false; S1'; if !brkK { S2'; .. }` with `break` = `brkK = true` — the statements after a taken `break` are skipped;
+    * `if let Some(o) = X.as_mut() { o.push(e); }` = the statement kind `optpush` (X: `Option<&mut Vec<_>>`);
+    * `let x = &mut x;` (re-borrow under the same name) is dropped."""
+    if b is None or not isinstance(b, N):
+        return b
+    if b.kind == "if":
+        b.then = desugar_block(b.then, counter)
+        b.els = desugar_block(b.els, counter)
+        return b
+    if b.kind != "block":
+        return b
+    out = []
+    for st in b.stmts:
+        k = st.kind
+        if k in ("while", "for", "loop"):
+            st.body = desugar_block(st.body, counter)
+        if k in ("ifs", "tail") and isinstance(st.e, N) and st.e.kind == "if":
+            desugar_block(st.e, counter)
+        if k == "match":
+            st.arms = [(pat, desugar_block(blk, counter), pos) for pat, blk, pos in st.arms]
+            sc = st.scrut
+            if (sc.kind == "mcall" and sc.name == "as_mut" and not sc.args and sc.recv.kind == "var" and len(st.arms) == 2
+                    and st.arms[0][0][0] == "some" and st.arms[1][0][0] == "none" and not st.arms[1][1].stmts
+                    and st.arms[1][1].tail is None and st.arms[0][1].tail is None and len(st.arms[0][1].stmts) == 1):
+                inner = st.arms[0][1].stmts[0]
+                if (inner.kind == "exprs" and inner.e.kind == "mcall" and inner.e.name == "push" and len(inner.e.args) == 1
+                        and inner.e.recv.kind == "var" and inner.e.recv.name == st.arms[0][0][1]):
+                    out.append(N("optpush", st.pos, target=sc.recv, value=inner.e.args[0]))
+                    continue
+        if k == "let" and st.init is not None and st.pat.kind == "pid" and st.ty is None and st.init.kind == "un" \
+                and st.init.op in ("&", "&mut") and st.init.e.kind == "var" and st.init.e.name == st.pat.name:
+            continue          # `let x = &mut x;`: re-borrow under the same name (references are transparent)
+        if k == "loop" and _ends_in_break(st.body) and not pm.contains_kind(st.body, ("return",)):
+            counter[0] += 1
+            flag = "brk%d" % counter[0]
+            body = st.body.stmts[:-1]
+            new = [N("let", st.pos, pat=N("pid", st.pos, name=flag, mut=True), ty=None, init=N("blit", st.pos, v=False))]
+            rest = list(body)
+            cur = new
+            while rest:
+                x = rest.pop(0)
+                if _has_break(x):
+                    if x.kind != "ifs":
+                        raise Unsupported("`break` outside an `if` chain in the never-looping `loop`", x.pos)
+                    _replace_breaks(x.e, flag)
+                    cur.append(x)
+                    if rest:
+                        guard = N("block", x.pos, stmts=[], tail=None)
+                        cur.append(N("ifs", x.pos, e=N("if", x.pos, cond=N("un", x.pos, op="!", e=N("var", x.pos, name=flag)),
+                                                    then=guard, els=None)))
+                        cur = guard.stmts
+                else:
+                    cur.append(x)
+            out.extend(new)
+            continue
+        out.append(st)
+    b.stmts = out
+    if b.tail is not None and isinstance(b.tail, N) and b.tail.kind == "if":
+        desugar_block(b.tail, counter)
+    return b
+
+
 # ================================================================================================== translator
 
 class FnL(_BaseFn):
@@ -118,6 +242,15 @@ class FnL(_BaseFn):
         if r.kind == "var" and (r.name + "." + e.name) in self.calls:
             return r.name + "." + e.name
         return None
+
+    def resolve_var(self, a):
+        """the variable that holds (the struct containing) the receiver field `a`: the longest prefix of the path that is declared"""
+        parts = a.split(".")
+        for k in range(len(parts), 0, -1):
+            cand = ".".join(parts[:k])
+            if any(cand in sc for sc in self.scopes):
+                return cand
+        return parts[0]
 
     def recv_lookup(self, name, code, node):
         """lean text of the receiver field `root.f`"""
@@ -191,11 +324,22 @@ class FnL(_BaseFn):
     def _call_assigned(self, ckey, args, decl, out):
         _BaseFn._call_assigned(self, ckey, args, decl, out)
         for a in self.calls[ckey].get("recv_outs", []):
-            nm = a if any(a in sc for sc in self.scopes) or a.split(".")[0] in self.local_struct_roots else a.rsplit(".", 1)[0]
+            nm = self.resolve_var(a)
             if nm not in decl and nm.split(".")[0] not in decl and nm not in out:
                 out.append(nm)
 
     def _assigned(self, n, decl, out):
+        if n.kind == "optpush":
+            r = self._lhs_root(n.target)
+            if r not in decl and r not in out:
+                out.append(r)
+            return
+        if n.kind == "if":
+            self._expr_calls_assigned(n.cond, decl, out)      # a `&mut self` call in a condition (pm looks at the branches only)
+        if n.kind == "while":
+            self._expr_calls_assigned(n.cond, decl, out)
+        if n.kind == "let" and n.init is None:
+            return
         if n.kind == "exprs" and n.e.kind == "mcall" and n.e.name == "insert" and len(n.e.args) == 2 \
                 and pm.self_path(n.e.recv) is not None:
             r = pm.self_path(n.e.recv)
@@ -227,7 +371,7 @@ class FnL(_BaseFn):
                 if "self." + a not in out:
                     out.append("self." + a)
             for a in f.get("recv_args", []):
-                nm = a if a.split(".")[0] in self.local_struct_roots else a.rsplit(".", 1)[0]
+                nm = self.resolve_var(a)
                 if nm not in out:
                     out.append(nm)
             for a in n.args:
@@ -336,6 +480,26 @@ class FnL(_BaseFn):
 
     # ---- local struct values held field by field ---------------------------------------------------------------------
     def let(self, s, code):
+        if s.init is None:
+            # `let x;`: the type comes from the spec (`locals`); the Lean variable starts with the spec's filler value, which is
+            # never read (definite initialisation is checked by rustc)
+            t = self.declared_type(s.pat.name, None, s)
+            if t is None or s.pat.name not in self.spec.get("deferred", {}):
+                self.err("`let %s;` without a type / filler in the spec (`locals`, `deferred`)" % s.pat.name, s)
+            v = self.declare(s.pat.name, t, s, mutable=True)
+            code.let(v.lean, self.spec["deferred"][s.pat.name])
+            return
+        if s.pat.kind == "pid" and s.init.kind in ("mcall", "call") and s.pat.name in self.spec.get("local_struct_vars", {}):
+            # `let mut h = <translated call returning a struct>`: held field by field (`h.f`)
+            sname = self.spec["local_struct_vars"][s.pat.name]
+            val, t = self.expr(s.init, code, None)
+            if t != self.ty_of_text(sname):
+                self.err("`let %s`: initialiser has type %r, the spec says %s" % (s.pat.name, t, sname), s)
+            vs = [self.declare("%s.%s" % (s.pat.name, f), self.ty_of_text(ft), s, mutable=True) for f, ft in self.structs[sname]]
+            code.let(tuple_pat([v.lean for v in vs]), val)
+            self.local_struct_roots[s.pat.name] = sname
+            pm.STRUCT_ROOTS.add(s.pat.name)
+            return
         if s.pat.kind == "pid" and s.init.kind == "struct" and s.init.name in self.spec.get("local_structs", []):
             sname = s.init.name
             want = self.structs[sname]
@@ -369,6 +533,19 @@ class FnL(_BaseFn):
         return o, v.ty.elem
 
     def expr(self, e, code, expected=None):
+        acc = self.spec.get("accessors", {})
+        if e.kind == "mcall" and not e.args and e.name in acc and e.recv.kind == "var" and e.recv.name in self.local_struct_roots:
+            # a getter of the spec (`h.block()` = `&h.state`): the field itself
+            return self.expr(N("field", e.pos, e=e.recv, name=acc[e.name]), code, expected)
+        if e.kind == "var" and e.name in self.spec.get("constants", {}) and not any(e.name in sc for sc in self.scopes):
+            val, ty = self.spec["constants"][e.name]
+            return val, self.ty_of_text(ty)
+        if e.kind == "field":
+            pth = pm.self_path(e)
+            if not (pth is not None and any(pth in sc for sc in self.scopes)) and not (e.e.kind == "var" and e.e.name == "self"):
+                b, bt = self.expr(e.e, code)
+                if isinstance(bt, TStruct) and e.name in bt.fields:
+                    return "%s%s" % (atom(b), bt.proj(e.name)), bt.items[bt.fields.index(e.name)]
         if e.kind == "un" and e.op == "*" and e.e.kind == "mcall" and e.e.name == "unwrap" and not e.e.args \
                 and e.e.recv.kind == "mcall" and e.e.recv.name == "next" and not e.e.recv.args:
             o, et = self.iter_next(e.e.recv.recv, code, e)
@@ -480,6 +657,15 @@ class FnL(_BaseFn):
 
     # ---- `if let Some(x) = e { .. } [else { .. }]` / `match` on an `Option` as a plain statement (no exits inside) ------------
     def stmt(self, s, code, last):
+        if s.kind == "optpush":
+            v = self.lookup(self._lhs_root(s.target), s)
+            if not (isinstance(v.ty, TOption) and isinstance(v.ty.elem, TSeq)):
+                self.err("`if let Some(o) = %s.as_mut() { o.push(..) }` on %r" % (v.rust, v.ty), s)
+            x, xt = self.expr(s.value, code, v.ty.elem.elem)
+            if xt != v.ty.elem.elem:
+                self.err("push of %r onto %r" % (xt, v.ty), s)
+            code.let(v.lean, "%s.map (fun o => o ++ [%s])" % (atom(v.lean), x))
+            return
         if s.kind == "match":
             return self.match_stmt(s, code)
         return _BaseFn.stmt(self, s, code, last)
@@ -826,6 +1012,43 @@ unit(name="SrcMyersTbShort2", props="property C10", file="src/pattern_matching/m
                          recv_args=["self.left_state.pv", "self.left_state.mv", "self.left_state.dist"],
                          recv_outs=["self.left_state.dist"], args=["T"], ret=None)},
                      theorem="RbV.Thm.GenSrcMyersTb2.moveToLeft_eq_model")])
+
+
+
+# ---- traceback, third part: the generic loop `Traceback::_traceback_at` read at the single-word instance ----------------------
+# `H = ShortStatesHandler`: `self.handler.init_traceback(m, pos, states)` = `ShortTracebackHandler::new(m, pos, states)` (the one-line
+# glue of simple.rs, paired by name), `h.block()` / `h.left_block()` / `h.pos_bitvec()` are the getters of `state` / `left_state` /
+# `pos_bitvec`.  `AlignmentOperation` values are bytes (`Match` 0, `Subst` 1, `Ins` 2, `Del` 3); `ops: Option<&mut Vec<_>>` is an
+# optional out-vector; `gas` is a ghost parameter bounding the `while` loop.
+TBK_IMPL = "impl<'a, T, D, H> Traceback<'a, T, D, H> where T: BitVec, D: DistType, H: StatesHandler<'a, T, D>,"
+H_ALL = ["h.state.pv", "h.state.mv", "h.state.dist", "h.left_state.pv", "h.left_state.mv", "h.left_state.dist", "h.max_mask",
+         "h.pos_bitvec", "h.left_mask"]
+H_ALL2 = ["h.state", "h.left_state", "h.states_iter", "h.max_mask", "h.pos_bitvec", "h.left_mask"]
+TBSH = "RbV.Gen.SrcMyersTbShort."
+unit(name="SrcMyersTbLoop", props="property C10", file="src/pattern_matching/myers/traceback.rs",
+     imports=["RbV.Basic.RsSemWord", "RbV.Basic.RsSemGenlong", "RbV.Gen.SrcMyersTbShort", "RbV.Gen.SrcMyersTbShort2"],
+     word_types=pm.MYERS_WORDS, type_paths=pm.MYERS_PATHS, structs=dict(pm.MYERS_STRUCTS, Handler=TB_H2),
+     aliases={"Op": "u8", "OpVec": "Vec<Op>"},
+     functions=[dict(name="Traceback::_traceback_at", lean="tracebackAt",
+                     header="fn _traceback_at(&self, pos: usize, mut ops: Option<&mut Vec<AlignmentOperation>>, "
+                            "state_slice: &'a [State<T, D>],) -> (D, D)",
+                     within=TBK_IMPL, self_fields=[("m", "DistType")],
+                     params=[("pos", "usize"), ("ops", "&mut Option<OpVec>"), ("state_slice", "&[State]"), ("gas", "usize")],
+                     ret="(DistType, DistType)", fuel=["gas"],
+                     local_struct_vars={"h": "Handler"}, locals={"op": "Op"}, deferred={"op": "0"},
+                     constants={"Match": ("0", "Op"), "Subst": ("1", "Op"), "Ins": ("2", "Op"), "Del": ("3", "Op")},
+                     accessors={"block": "state", "left_block": "left_state", "pos_bitvec": "pos_bitvec"},
+                     calls={"self.handler.init_traceback": dict(lean="RbV.Gen.SrcMyersTbShort2.new", extra=["w", "wd"],
+                                                                args=["DistType", "usize", "&[State]"], ret="Handler"),
+                            "h.move_up": dict(lean=TBSH + "moveUp", extra=["w", "wd"], recv_args=H_ALL,
+                                              recv_outs=["h.state.dist", "h.pos_bitvec"], args=["bool"], ret=None),
+                            "h.move_up_left": dict(lean=TBSH + "moveUpLeft", extra=["w", "wd"], recv_args=H_ALL,
+                                                   recv_outs=["h.left_state.dist", "h.left_mask"], args=["bool"], ret=None),
+                            "h.move_left_down_if_better": dict(lean=TBSH + "moveLeftDownIfBetter", extra=["w", "wd"],
+                                                               recv_args=H_ALL, recv_outs=["h.left_state.dist"], args=[], ret="bool"),
+                            "h.finished": dict(lean=TBSH + "finished", extra=["w", "wd"], recv_args=H_ALL, args=[], ret="bool"),
+                            "h.move_to_left": dict(lean="RbV.Gen.SrcMyersTbShort2.moveToLeft", extra=["w", "wd"], recv_args=H_ALL2,
+                                                   recv_outs=["h.state", "h.left_state", "h.states_iter"], args=[], ret=None)})])
 
 
 # ================================================================================================== self-test / CLI
